@@ -14,6 +14,12 @@
 (*   meas : 1 if the dissimilarity measure name is still attached, 0 if it *)
 (*          is None (permute_rdms builds its result without one; append and*)
 (*          concat insist on equal measures)                               *)
+(*   pdem : 1 if the objects carries an array-valued rdm descriptor: concat *)
+(*          and from_partials demote the object descriptor 'p_inv' to an   *)
+(*          rdm descriptor when it differs between their arguments; the    *)
+(*          long-form DataFrame export cannot hold array-valued columns,   *)
+(*          and append needs every rdm descriptor of its target in the     *)
+(*          appended object                                                *)
 (*   pcat : 1 if the pattern descriptor 'cat' exists (from_partials keeps  *)
 (*          only the descriptor it aligns on)                              *)
 (*   vec  : per row the STORED condensed upper-triangular vector, computed *)
@@ -75,7 +81,7 @@ MaskVec(v, n, inSel) ==
   IN [k \in 1..Len(keep) |-> v[keep[k]]]
 
 Null == [rows |-> <<>>, pats |-> <<>>, have |-> <<>>, ridx |-> <<>>, pidx |-> <<>>,
-         pinv |-> <<>>, meas |-> 0, pcat |-> 0, vec |-> <<>>]
+         pinv |-> <<>>, meas |-> 0, pcat |-> 0, pdem |-> 0, vec |-> <<>>]
 Live(h, o) == h[o].pats # <<>>
 LiveSet(h) == {o \in 1..MaxObj : Live(h, o)}
 FreeSlot(h) == CHOOSE o \in 1..MaxObj : ~Live(h, o) /\ \A o2 \in 1..MaxObj : ~Live(h, o2) => o <= o2
@@ -86,7 +92,7 @@ Universe == 1..NC
 
 Source == [rows |-> [k \in 1..NR |-> k], pats |-> [k \in 1..NC |-> k],
            have |-> [k \in 1..NR |-> Universe],
-           ridx |-> Iota(NR), pidx |-> Iota(NC), pinv |-> <<>>, meas |-> 1, pcat |-> 1,
+           ridx |-> Iota(NR), pidx |-> Iota(NC), pinv |-> <<>>, meas |-> 1, pcat |-> 1, pdem |-> 0,
            vec |-> [r \in 1..NR |-> [k \in 1..CLen(NC) |->
                        Tok(r, PairAt(NC, k)[1], PairAt(NC, k)[2])]]]
 
@@ -178,7 +184,7 @@ Enabled(h, e) ==
        [] e.op = "append" ->             \* same shape and the same pattern labelling
             /\ e.o2 \in 1..MaxObj /\ Live(h, e.o2) /\ e.o2 # e.o
             /\ h[e.o2].pats = ob.pats /\ nr + Len(h[e.o2].rows) <= MaxRows
-            /\ h[e.o2].meas = ob.meas
+            /\ h[e.o2].meas = ob.meas /\ (ob.pdem = 1 => h[e.o2].pdem = 1)
        [] e.op = "concat" ->             \* aligned on the unique descriptor 'cond', else same order
             /\ e.o2 \in 1..MaxObj /\ Live(h, e.o2)
             /\ nr + Len(h[e.o2].rows) <= MaxRows
@@ -192,7 +198,8 @@ Enabled(h, e) ==
             /\ Cardinality(Range(ob.pats) \cup Range(h[e.o2].pats)) <= MaxPats
        [] e.op = "permute" -> IsPerm(e.vals, np)
        [] e.op = "inverse_permute" -> IsPerm(ob.pinv, np)
-       [] e.op \in {"copy", "dict", "matrices", "saveload", "to_df", "drop"} -> TRUE
+       [] e.op = "to_df" -> ob.pdem = 0
+       [] e.op \in {"copy", "dict", "matrices", "saveload", "drop"} -> TRUE
        [] OTHER -> FALSE
   /\ e.op = "drop" => Cardinality(LiveSet(h)) >= 2
 
@@ -240,7 +247,8 @@ Result(h, e) ==
                   ELSE PermPats(b0, [k \in 1..np |-> CHOOSE j \in 1..np : b0.pats[j] = ob.pats[k]]) IN
          [ob EXCEPT !.rows = ob.rows \o b.rows, !.have = ob.have \o b.have,
                     !.vec = ob.vec \o b.vec, !.ridx = Iota(nr + Len(b.rows)),
-                    !.pinv = IF ob.pinv = b0.pinv THEN ob.pinv ELSE <<>>]
+                    !.pinv = IF ob.pinv = b0.pinv THEN ob.pinv ELSE <<>>,
+                    !.pdem = IF ob.pinv # b0.pinv \/ ob.pdem = 1 \/ b0.pdem = 1 THEN 1 ELSE 0]
     [] e.op = "from_partials" ->
          LET b == h[e.o2]
              extra == SelectSeq(b.pats, LAMBDA c : c \notin Range(ob.pats))
@@ -261,6 +269,7 @@ Result(h, e) ==
              ridx |-> Iota(nr + Len(b.rows)), pidx |-> Iota(n),
              pinv |-> IF ob.pinv = b.pinv THEN ob.pinv ELSE <<>>,   \* differing object descriptors are demoted
              meas |-> b.meas, pcat |-> 0,
+             pdem |-> IF ob.pinv # b.pinv \/ ob.pdem = 1 \/ b.pdem = 1 THEN 1 ELSE 0,
              vec |-> [k \in 1..nr |-> Scatter(ob, k)] \o [k \in 1..Len(b.rows) |-> Scatter(b, k)]]
     [] e.op = "permute" -> [PermPats(ob, e.vals) EXCEPT !.pinv = InvPerm(e.vals), !.meas = 0]
     [] e.op = "inverse_permute" -> [PermPats(ob, ob.pinv) EXCEPT !.pinv = InvPerm(ob.pinv), !.meas = 0]
